@@ -167,6 +167,94 @@ def generate_platform(platform, outdir, session_names=None, additive=False, extr
 
 
 
+# ---------------------------------------------------------------------------------------------
+# table-changing steps of a history.  The harness applies them to the driver UNDER TEST (which has classified prompts
+# before); the translator applies the same steps to a FRESH driver that has never classified anything and reads the table
+# back from the `.pattern` / `.not_contains` attributes: the table the model's `Update t` is given.
+#   ["register", name]              register_configuration_session(name)  (calls update_privilege_levels itself)
+#   ["retire", name]                privilege_levels.pop(name)
+#   ["sub", level|"*", old, new]    IN-PLACE edit of the pattern text of an existing level object (every level for "*")
+#   ["nc_add", level, entry, how]   not_contains gains an entry; how = "append" (the list object is kept) | "assign"
+#   ["nc_del", level, entry]        not_contains loses an entry (list object kept)
+#   ["replace", level, old, new]    the level OBJECT is replaced by a copy with the edited pattern (same key, same name)
+#   ["add", name, pattern, prev]    a new level object
+#   ["update"]                      update_privilege_levels()
+# ---------------------------------------------------------------------------------------------
+def apply_step(drv, step):
+    import copy
+    k = step[0]
+    pl = drv.privilege_levels
+    if k == "register":
+        drv.register_configuration_session(session_name=step[1])
+    elif k == "retire":
+        pl.pop(step[1])
+    elif k == "sub":
+        hit = 0
+        for name, lvl in pl.items():
+            if step[1] in ("*", name) and step[2] in lvl.pattern:
+                lvl.pattern = lvl.pattern.replace(step[2], step[3])
+                hit += 1
+        if not hit:
+            raise rx.Unsupported("edit %r changes no level pattern" % (step,))
+    elif k == "nc_add":
+        lvl = pl[step[1]]
+        if step[3] == "append":
+            lvl.not_contains.append(step[2])
+        else:
+            lvl.not_contains = list(lvl.not_contains) + [step[2]]
+    elif k == "nc_del":
+        pl[step[1]].not_contains.remove(step[2])
+    elif k == "replace":
+        new = copy.copy(pl[step[1]])
+        if step[2] not in new.pattern:
+            raise rx.Unsupported("edit %r changes no level pattern" % (step,))
+        new.pattern = new.pattern.replace(step[2], step[3])
+        new.not_contains = list(new.not_contains)
+        pl[step[1]] = new
+    elif k == "add":
+        from scrapli.driver.network.base_driver import PrivilegeLevel
+        pl[step[1]] = PrivilegeLevel(pattern=step[2], name=step[1], previous_priv=step[3], deescalate="exit",
+                                     escalate="enter-" + step[1], escalate_auth=False, escalate_prompt="")
+    elif k == "update":
+        drv.update_privilege_levels()
+    else:
+        raise rx.Unsupported("history step %r" % (step,))
+
+
+def generate_history_tables(platform, outdir, states):
+    """Gen_PromptEdits_<platform>.v — one table per state of the edit histories.  `states` = list of step lists; the table of
+    a state is read from a fresh driver after the steps (tbl_st_<i>).  A separate file: the facts / theorems of
+    Gen_Prompts_<platform>.v do not depend on it.  Returns (path, [table names], {name: {levels, combined}})."""
+    lines = ["(* generated by gen/gen_prompts.py (generate_history_tables): privilege tables after in-place edits — do not edit *)",
+             "From Coq Require Import String.",
+             "From Verif Require Import Bytes Regex RegexDeriv Prompt."]
+    em = Emit()
+    names, tables = [], {}
+    for i, steps in enumerate(states):
+        d = driver_for(platform)
+        for st in steps:
+            apply_step(d, st)
+        tbl = table_of(d)
+        combined = d.channel._base_channel_args.comms_prompt_pattern
+        if combined != d.comms_prompt_pattern:
+            raise rx.Unsupported("channel pattern differs from driver pattern")
+        if combined != "|".join("(%s)" % p_ for _, p_, _ in tbl):
+            raise rx.Unsupported("combined pattern of state %d is not the alternation of the level patterns" % i)
+        tname = "tbl_st_%d" % i
+        lvl_terms = []
+        for lname, pat, ncs in tbl:
+            t = em.re_term(pat, re.M | re.I)
+            lvl_terms.append("mkLevel %s %s [%s]" % (coq_str(lname), t, "; ".join(coq_bytes(nc.encode("latin-1")) for nc in ncs)))
+        lines.append("Definition %s : list level := [\n  %s]." % (tname, ";\n  ".join(lvl_terms)))
+        names.append(tname)
+        tables[tname] = {"steps": steps, "levels": [[n, p_, list(nc)] for n, p_, nc in tbl], "combined": combined}
+    text = "\n".join(lines) + "\n"
+    path = os.path.join(outdir, "Gen_PromptEdits_%s.v" % platform)
+    if not os.path.exists(path) or open(path).read() != text:
+        open(path, "w").write(text)
+    return path, names, tables
+
+
 def generate_cache_facts(outdir):
     """Gen_PromptCache.v — ast facts about the memoisation of _determine_current_priv and who clears it"""
     import ast
